@@ -229,12 +229,13 @@ PROPS['C16'] = dict(
                 "the observation envelope at byte level for ANY order of the proto map entries and removal ids (full uint64 timestamps via "
                 "the legacy/new field pair, duplicate removal id refused); the encoder model reproduces Go's Encode bytes exactly once told "
                 "the map order Go used (checked on every observation case). C16_retirement_roundtrip proves the retirement report's JSON "
-                "transport at byte level (model = Go's json.Marshal bytes exactly: keys sorted as strings, nil map = null). PARTIAL: the "
-                "Mercury offchain config (JSON with a decimal string) has no Coq model (round-trip verdict computed on the implementation).",
+                "transport at byte level (model = Go's json.Marshal bytes exactly: keys sorted as strings, nil map = null). The Mercury offchain "
+                "config (JSON with a quoted decimal) is modelled byte-exactly too (C16_mercury_offchain_roundtrip). The JSON decoders are "
+                "modelled on the canonical shapes their encoders produce; encoding/json's leniency on other inputs is library behaviour.",
     assumptions=["protobuf-go / encoding/json library behaviour as modelled or exercised", "byte strings are shorter than 2^64 bytes"],
     level_text="Coq theorems for stream-value, config and int192 codecs (round trip, accept-iff-valid, rejections) over byte-level models tied "
                "to the Go codecs by differential testing, incl. the byte-level observation envelope for any proto-map order and the "
-               "retirement report's JSON form; the Mercury offchain config (JSON) is checked on the implementation only (partial).",
+               "retirement report's and the Mercury offchain config's JSON forms (canonical shapes; encoding/json leniency not modelled).",
     level_note="Trusted: Coq kernel + vm_compute; hand-written byte-level models; harness. Axioms: none.",
 )
 
